@@ -97,7 +97,8 @@ def bounds(tier):
                 temperature_shapes={k: (v if k != 'len50' else '50 points 250-1900 K') for k, v in T_SHAPES.items()},
                 len50_evaluated='every state' if tier != 'quick' else 'root states',
                 pressures=PRESSURES, coverages=COVERAGES,
-                conditions='full product P x coverage' if tier != 'quick' else 'P and coverage varied together (3)')
+                conditions='full product P x coverage (50-point arrays: P and coverage varied together)' if tier != 'quick'
+                else 'P and coverage varied together (3)')
 
 
 def _is_gas(phase):
@@ -258,8 +259,8 @@ def _expected(state, T, P, xa, xb):
 
 
 # ----------------------------------------------------------------------------- evaluation of one state
-def _conditions(tier):
-    if tier == 'quick':
+def _conditions(tier, shape='scalar'):
+    if tier == 'quick' or shape == 'len50':
         return [(P, xa, xb) for P, (xa, xb) in zip(PRESSURES, COVERAGES)]
     return [(P, xa, xb) for P in PRESSURES for (xa, xb) in COVERAGES]
 
@@ -297,7 +298,7 @@ def _check_state(sp, state, world, case, ctx, op, shapes, tier):
         Tlist = [Ts] if scalar else list(Ts)
         Targ = Ts if scalar else np.array(Ts)
         sig1 = dict(sig0, T='scalar' if scalar else 'array')
-        for (P, xa, xb) in _conditions(tier):
+        for (P, xa, xb) in _conditions(tier, shape):
             kw = _kwargs(P, xa, xb)
             exp = [_expected(state, T, P, xa, xb) for T in Tlist]
             got = {}
